@@ -99,6 +99,10 @@ def items_all():
     # 3 lifetimes
     add("lifetime", Item("E", base_variants(), lifetimes=1))
     add("lifetime", Item("E", base_variants() + [Variant("B", "tuple", [Field("&'l0 str")])], lifetimes=2, tparams=1))
+    # ... also when the variants that USE the lifetime are disabled, or when no variant uses it at all
+    add("lifetime", Item("E", [Variant("Eof", "unit"), Variant("Word", "tuple", [Field("&'l0 str")], [DISABLED]), Variant("Tail", "unit")], lifetimes=1))
+    add("lifetime", Item("E", [Variant("Word", "named", [Field("&'l0 str", "text")], [DISABLED]), Variant("Eof", "unit", [], [ser("eof")])], lifetimes=1))
+    add("lifetime", Item("E", [Variant("Only", "tuple", [Field("&'l0 str")], [DISABLED])], lifetimes=1))
     # 4 repeated variant attributes
     singles = [msg("m"), det("d"), tos("t"), TRANSPARENT, DISABLED, DEFAULT, dw("f"), aci(True, explicit=False)]
     for m in singles:
